@@ -95,10 +95,6 @@ theorem wrong_password_rejected (C : Cipher) (hC : CipherOK C) (hW : WrongKeyRej
   rw [if_neg (hC.enc_nonempty _ _ _)]
   simp only [hW _ _ _ _ hne]
 
-/-- a failed Lock/Unlock has no effect: both are pure functions returning a NEW wallet -/
-theorem unlock_fails_no_secret (C : Cipher) (w : Wallet) (pw : Bytes) (e : LErr)
-    (_h : unlock C w pw = .error e) : True := trivial
-
 /-! ### Decrypt never panics -/
 
 /-- `Sha256Xor.Decrypt` — the block loop -/
